@@ -89,6 +89,14 @@ func c01cluster(c *h.Ctx, cs *h.Case) {
 					known = append(known, n)
 				}
 			}
+			// on a stream transport some messages are big enough to arrive in several reads, directly
+			// followed by the next frame on the same connection
+			msgFor := func(v int) interface{} {
+				if tcp && r.Intn(3) == 0 {
+					return fix.BigPayload(v, 40000+r.Intn(300000))
+				}
+				return &fix.M3{V: v}
+			}
 			for s := 0; s < nsends; s++ {
 				src := known[r.Intn(len(known))]
 				var rec *fix.Rec
@@ -113,7 +121,7 @@ func c01cluster(c *h.Ctx, cs *h.Case) {
 						continue
 					}
 					expect(dst, v)
-					err = rec.Tni.SendTo(dst, &fix.M3{V: v})
+					err = rec.Tni.SendTo(dst, msgFor(v))
 				case x < 7:
 					if len(src.Children) == 0 {
 						continue
@@ -121,20 +129,20 @@ func c01cluster(c *h.Ctx, cs *h.Case) {
 					for _, ch := range src.Children {
 						expect(ch, v)
 					}
-					err = rec.Tni.SendToChildren(&fix.M3{V: v})
+					err = rec.Tni.SendToChildren(msgFor(v))
 				case x < 9:
 					if src.Parent == nil {
 						continue
 					}
 					expect(src.Parent, v)
-					err = rec.Tni.SendToParent(&fix.M3{V: v})
+					err = rec.Tni.SendToParent(msgFor(v))
 				default:
 					for _, n := range nodes {
 						if n != src {
 							expect(n, v)
 						}
 					}
-					es := rec.Tni.Broadcast(&fix.M3{V: v})
+					es := rec.Tni.Broadcast(msgFor(v))
 					if len(es) > 0 {
 						err = es[0]
 					}
@@ -154,7 +162,7 @@ func c01cluster(c *h.Ctx, cs *h.Case) {
 					for b := 0; b < 24; b++ {
 						v := nextVal()
 						expect(dst, v)
-						if err := rec.Tni.SendTo(dst, &fix.M3{V: v}); err != nil {
+						if err := rec.Tni.SendTo(dst, msgFor(v)); err != nil {
 							mu.Lock()
 							errs = append(errs, fmt.Sprintf("run %d: burst send %d: %v", run, v, err))
 							mu.Unlock()
@@ -224,7 +232,9 @@ func c01cluster(c *h.Ctx, cs *h.Case) {
 	}
 	for v, m := range got {
 		for tok := range m {
-			if expected[v][tok] == 0 {
+			if v < 0 {
+				cs.Fail("content-changed", fmt.Sprintf("the payload of value %d arrived changed at instance %s", -v-1, tok[len(tok)-36:]))
+			} else if expected[v][tok] == 0 {
 				cs.Fail("wrong-instance", fmt.Sprintf("value %d handled by instance %s which it was not sent to", v, tok[len(tok)-36:]))
 			}
 		}
